@@ -128,9 +128,10 @@ def build(src):
                    Rule("D3.multiset-temporary", r"\barg\.as_short_list\(\)\.count\(base_short_name\(self\)\)", "toggle_short_count(arg, base_short_name(self))"),
                    Rule("D3.multiset-temporary", r"\barg\.as_short_list\(\)\.size\(\)", "ui_short_total(arg)"),
                    Rule("D7.string-size", r"\barg\.(name|value|data)\(\)\.size\(\)", r"ui_\1(arg)->len"),
-                   Rule("D6.named-eq", r"\barg\.as_named\(\)\s*==\s*base_name\(self\)", "ostr_eq_v(ui_as_named(arg), *base_name(self))")] ,
+                   Rule("D6.named-eq", r"\barg\.as_named\(\)\s*==\s*base_name\(self\)", "ostr_eq_v(ui_as_named(arg), *base_name(self))"),
+                   Rule("D7.string-compare", r"\barg\.name\(\)\.compare\(2,\s*base_name\(self\)\.size\(\),\s*base_name\(self\)\)\s*==\s*0", "ostr_prefix_at2_is(ui_name(arg), base_name(self))")] ,
             pre=[Rule("D2.auto", r"\bauto\b", "__auto_type")] + arg_calls + base_calls,
-            must_fire=["D3.multiset-local|D3.multiset-temporary", "D7.multiset-count|D3.multiset-temporary", "D6.named-eq"], extra_replace=["ui_as_short_list"]))
+            must_fire=["D3.multiset-local|D3.multiset-temporary", "D7.multiset-count|D3.multiset-temporary", "D6.named-eq|D7.string-compare"], extra_replace=["ui_as_short_list"]))
     # toggle
     st = "struct otoggle *self"
     cst = "const struct otoggle *self"
@@ -444,8 +445,13 @@ def build(src):
     u.add(F("parser_has_option_with_name", PAR, r"bool parser::has_option_with_name\(const std::string& name\) const", "nbool parser_has_option_with_name(const struct oparser2 *self, const struct ostr *name)", ["C13"], dflt="0",
             rules=[Rule("D3.temporary-map", r"return\s+get_all_multi_options\(\)\.count\(name\) \+ get_all_options\(\)\.count\(name\) \+\s*get_all_toggles\(\)\.count\(name\);",
                         "{ struct omapk t1, t2, t3; parser_get_all_multi_options(&t1, self); parser_get_all_options(&t2, self); parser_get_all_toggles(&t3, self); "
-                        "return (omapk_count(&t1, name) + omapk_count(&t2, name) + omapk_count(&t3, name)) != 0; }")],
-            must_fire=["D3.temporary-map"]))
+                        "return (omapk_count(&t1, name) + omapk_count(&t2, name) + omapk_count(&t3, name)) != 0; }"),
+                   # the same lookup written as a loop over the groups (other shapes of the body are taken as they come):
+                   Rule("D10.map-loop", r"for \((?:const )?(?:auto|__auto_type)& (?:sg|group|g) : groups_\)", "for (size_t g_ = 0; g_ < self->n_groups; ++g_)"),
+                   Rule("D3.reference-alias", r"(?:const )?(?:auto|__auto_type)& (\w+) = (?:sg|group|g)\.second;", r"const struct ogroup *\1 = &self->groups[g_];"),
+                   Rule("D6.getter", r"\b(?:sg|group|g)\.second\.get_(options|multi_options|toggles)\(\)\.count\(name\)", r"omapk_count(&self->groups[g_].\1_, name)"),
+                   Rule("D6.getter", r"\b(\w+)\.get_(options|multi_options|toggles)\(\)\.count\(name\)", r"omapk_count(&\1->\2_, name)")],
+            must_fire=["D3.temporary-map|D10.map-loop"], unwind=G + 1, no_replace=["omapk_count"]))
     for fn, member in [("option", "options_"), ("multi_option", "multi_options_"), ("toggle", "toggles_")]:
         u.add(F("group_" + fn, GRP, r"options::%s& group::%s\(const std::string& name,\s*const std::string& description\)" % (fn, fn),
                 "struct obase *group_%s(struct ogroup *self, const struct ostr *name, const struct ostr *description)" % fn, ["C13", "C15"], dflt="0",
